@@ -154,7 +154,11 @@ func rulesReplay(c *Ctx, name string, rc *RulesCase, roundTrip bool, cli *int64)
 		"rules/REQUEST-933-APPLICATION-OTHER.conf": "SecRule ARGS \"@rx keep\" \\\n    \"id:933100,\\\n    block\"\n",
 		"rules/notes.txt":                          "id:" + rc.Rule + " \"@rx decoy\" \\\n",
 		// a second, up-to-date rule that `--all` visits after the target
-		"regex-assembly/942100.ra":                "keep\n",
+		"regex-assembly/942100.ra": "keep\n",
+		// .ra files that are not the assembly file of a rule: ignored by every --all walk; one sorts
+		// before all rule files, one between a rule's chain files and its main file
+		"regex-assembly/100000-draft.ra":          "draft\n",
+		"regex-assembly/" + rc.Rule + "-old.ra":   "stale\n",
 		"rules/REQUEST-942-APPLICATION-SQLI.conf": "SecRule ARGS \"@rx keep\" \\\n    \"id:942100,\\\n    block\"\n",
 		"tests/regression/tests/x/932100.yaml":    "tests:\n  - test_id: 7\n",
 	}
@@ -277,6 +281,17 @@ func rulesReplay(c *Ctx, name string, rc *RulesCase, roundTrip bool, cli *int64)
 		}
 		if s, _ := snapshot(root); len(diffTrees(edited, s)) > 0 {
 			bad("compare wrote to the tree", map[string]any{"diff": diffTrees(edited, s)})
+		}
+		// the same round trip through the --all forms (Toolchain!UpdateAll is the fold of Update):
+		// update --all repairs the edited operand, compare --all then reports nothing
+		r8 := run("regex", "update", "--all")
+		after8, _ := snapshot(root)
+		if r8.Exit != 0 || after8[rulesFileName] != rc.After || len(onlyRulesFile(edited, after8)) > 0 {
+			bad(fmt.Sprintf("update --all after a one-byte edit does not restore the generated operand (exit %d)", r8.Exit), map[string]any{"real_after": after8[rulesFileName], "diff": diffTrees(edited, after8)})
+		}
+		r9 := run("-o", "github", "regex", "compare", "--all")
+		if r9.Exit != 0 {
+			bad("compare --all in github mode fails right after update --all", map[string]any{"stdout": r9.Stdout})
 		}
 	} else {
 		c.violation("harness", map[string]any{"why": "operand offset of the spec does not point at the regex", "case": rc})
